@@ -621,12 +621,12 @@ fn impl_of(s: &str) -> Option<TypeSpaceImpl> {
     s.parse::<TypeSpaceImpl>().ok()
 }
 
-/// Mirror of typify-macro/src/token_utils.rs:27-44 (into_name_and_impls): the
-/// default impls go into a std HashSet (fresh RandomState), listed impls are
-/// inserted / removed, and the set is turned into an iterator.
+/// Mirror of typify-macro/src/token_utils.rs:22-47 (into_name_and_impls) as of fix 9ffca46: the
+/// default impls go into a BTreeSet, listed impls are inserted / removed, and the set is turned
+/// into an (ascending) iterator.  (Before the fix this was a std HashSet: finding C12-F1.)
 fn macro_impls(extra: &Value) -> Vec<TypeSpaceImpl> {
     const DEFAULT_IMPLS: [TypeSpaceImpl; 2] = [TypeSpaceImpl::FromStr, TypeSpaceImpl::Display];
-    let mut impls = DEFAULT_IMPLS.into_iter().collect::<HashSet<_>>();
+    let mut impls = DEFAULT_IMPLS.into_iter().collect::<BTreeSet<_>>();
     if let Some(a) = extra.as_array() {
         for x in a {
             let s = x.as_str().unwrap_or("");
